@@ -29,3 +29,12 @@ package ext
 //@ iface Buffer.Reset
 //@   modifies buffer.len at recv
 //@   ensures blen(recv) == 0
+
+//@ func New
+//@   trusted
+//@   ensures result != nil && blen(result) == 0
+
+//@ iface Buffer.Write
+//@   modifies buffer.*
+//@   modifies uint8
+//@   ensures blen(recv) == old(blen(recv)) + len(p) && bobj(recv) > 0
